@@ -42,6 +42,10 @@ def objx(sh, S):
     """the mock object expression of a site: the movable mock type, or the non-movable one (mock id 3)"""
     return '*nmock' if sh.get('nm') else '*mocks[cfg[%d].mock]' % S
 
+def guard(sh):
+    """a site is only usable with a mock id of its own mock type (a script naming the wrong one is skipped, not executed)"""
+    return 'if (c.mock != NM_ID) return false;' if sh.get('nm') else 'if (c.mock < 0 || c.mock >= NMOCK) return false;'
+
 def call_text(sh, S):
     fn, pm = sh['fn'], sh['pm']
     if pm == 'wild':
@@ -77,12 +81,12 @@ def main(outdir):
             mods = ''.join(clause_code(t, S) for t in sh['cl'])
             if sh['macro'].endswith('_V'):
                 macro = {'REQ_V': 'NAMED_REQUIRE_CALL_V', 'ALLOW_V': 'NAMED_ALLOW_CALL_V', 'FORBID_V': 'NAMED_FORBID_CALL_V'}[sh['macro']]
-                code = 'case %d: exps[%d] = %s(%s, %s%s); return true;' % (
-                    S * 1000 + sh['id'], S, macro, objx(sh, S), ct, (', ' + mods) if mods else '')
+                code = 'case %d: %s exps[%d] = %s(%s, %s%s); return true;' % (
+                    S * 1000 + sh['id'], guard(sh), S, macro, objx(sh, S), ct, (', ' + mods) if mods else '')
             else:
                 macro = {'REQ': 'NAMED_REQUIRE_CALL', 'ALLOW': 'NAMED_ALLOW_CALL', 'FORBID': 'NAMED_FORBID_CALL'}[sh['macro']]
-                code = 'case %d: exps[%d] = %s(%s, %s)%s; return true;' % (
-                    S * 1000 + sh['id'], S, macro, objx(sh, S), ct, mods)
+                code = 'case %d: %s exps[%d] = %s(%s, %s)%s; return true;' % (
+                    S * 1000 + sh['id'], guard(sh), S, macro, objx(sh, S), ct, mods)
             lines.append(code)
             sites['%s:%d' % (fname, len(lines))] = dict(kind='exp', slot=S, shape=sh['id'], name=objx(sh, S) + '.' + ct)
         lines.append('default: return false; } } }')
@@ -102,7 +106,7 @@ def main(outdir):
         else:
             macro = {'SREQ': 'REQUIRE_CALL', 'SALLOW': 'ALLOW_CALL', 'SFORBID': 'FORBID_CALL'}[m]
             stmt = '%s(%s, %s)%s;' % (macro, objx(sh, S), ct, mods)
-        lines.append('case %d: { %s created(); body(); } return true;' % (S * 1000 + sh['id'], stmt))
+        lines.append('case %d: %s { %s created(); body(); } return true;' % (S * 1000 + sh['id'], guard(sh), stmt))
         sites['%s:%d' % (fname, len(lines))] = dict(kind='exp', slot=S, shape=sh['id'], name=objx(sh, S) + '.' + ct)
     lines.append('default: return false; } }')
     lines.append('bool make_scoped_monitor(int k, int o, int nq, int q1, int q2, std::function<void()> const& created, std::function<void()> const& body) { (void)q1; (void)q2; switch (k * 10 + nq) {')
